@@ -7,7 +7,8 @@ code->spec random walk: oracle mode (Oracle_C18: TLC emits K and Pi as exact rat
            vector and, with the hook, every sweep as ONE Sweep step from the previous infected set)
 
 A quarter of the random-walk hypergraphs and a fifth of the contagion runs are reached by EDITING an object on which the
-functions have already been called (per-object memoisation); starting densities are float- or integer-typed.
+functions have already been called (per-object memoisation); a fifth of the others by an edit that keeps the numbers of nodes and
+hyperedges, after calls with exactly the arguments of the judged observation (same_counts); starting densities are float- or integer-typed.
 
 Every executed case is described by a small JSON `spec` (hypergraph, labels, arguments, seeds) from
 which it can be re-executed exactly: that is the replay payload.
@@ -127,30 +128,49 @@ def mutate(b, obj, old, new, rng):
                 obj.add_edge(b._tuple(e))
 
 
+def swapped(edges, n, hr, connected=False):
+    """`edges` with 1-2 hyperedges replaced by as many others of the same sizes over 1..n (same number of hyperedges, and - when
+    connected is asked - still connected, hence the same nodes); None when no such neighbour is found"""
+    edges = [tuple(e) for e in edges]
+    if not edges:
+        return None
+    for _ in range(30):
+        out = hr.sample(edges, hr.randint(1, min(2, len(edges))))
+        new = []
+        for e in out:
+            for _ in range(10):
+                o = tuple(sorted(hr.sample(range(1, n + 1), len(e))))
+                if o not in edges and o not in new:
+                    new.append(o)
+                    break
+        if len(new) != len(out):
+            continue
+        before = [e for e in edges if e not in out] + new
+        if not connected or is_connected(n, before):
+            return sorted(before)
+    return None
+
+
+def settle_weights(b, obj, edges, er):
+    """after an in-place edit of a WEIGHTED object: one of the hyperedges gets another weight too"""
+    with quiet():
+        if obj.is_weighted() and edges:
+            obj.set_weight(b._tuple(er.choice([tuple(e) for e in edges])), er.choice([2, 3, 4]))
+
+
+HISTORY_SHARE = 0.2
+
+
 # ---------------------------------------------------------------------------
-# random walk part.  spec = {part, n, edges, case_seed, np_seed, ndens, nwalks [, prev_edges]}
+# random walk part.  spec = {part, n, edges, case_seed, np_seed, ndens, nwalks [, prev_edges [, same_counts]]}
 # prev_edges: the object is first built with these hyperedges (connected, same nodes), every random-walk function is
-# called on it, then the SAME object is edited into `edges`; what is observed and judged is the object as it is now
-def rw_execute(spec):
-    """build the hypergraph (labels 0..n-1) and call the four functions of dynamics/randwalk.py;
-    returns (case for TLC, log); floats stay on this side"""
-    import hypergraphx.dynamics.randwalk as RW
-    n, nseed = spec["n"], spec["np_seed"]
-    rng = random.Random(spec["case_seed"])
-    b = Binding("hg", LABEL_FAMILIES["zero"](n), rng)
-    if spec.get("prev_edges") is not None:
-        obj = build(b, spec["prev_edges"], rng)
-        with quiet():
-            np.random.seed(nseed)
-            for fn, args in ((RW.transition_matrix, ()), (RW.RW_stationary_state, ()),
-                             (RW.random_walk_density, (np.full(n, 1.0 / n), 2)), (RW.random_walk, (0, 3))):
-                try:
-                    fn(obj, *args)
-                except Exception:
-                    pass                           # judged on its own in the cases without a history
-        mutate(b, obj, spec["prev_edges"], spec["edges"], rng)
-    else:
-        obj = build(b, spec["edges"], rng)
+# called on it, then the SAME object is edited into `edges`; what is observed and judged is the object as it is now.
+# same_counts: prev_edges has as many hyperedges as `edges` (k replaced by k others), the functions are first called with
+# exactly the arguments of the judged observation (the first argument combination of each once more at the end), and
+# nothing is called between the edit and the observation
+def rw_observe(RW, obj, n, spec, rng, first_only=False):
+    """call the four functions of dynamics/randwalk.py; first_only: the same draws, only the first argument combination of each"""
+    nseed = spec["np_seed"]
     log = {}
     with quiet():
         try:
@@ -170,6 +190,8 @@ def rw_execute(spec):
         starts.append(w / w.sum())
         for s0 in starts[:spec["ndens"]]:
             time = rng.choice([0, 1, 2, 3, 5, 8])
+            if first_only and dens:
+                continue
             try:
                 lst = RW.random_walk_density(obj, np.array(s0), time)
                 dens.append({"s0": [float(x) for x in s0], "time": time, "dtype": str(np.asarray(s0).dtype),
@@ -181,6 +203,8 @@ def rw_execute(spec):
         for k in range(spec["nwalks"]):
             s = rng.randrange(n)
             time = rng.choice([0, 1, 2, 6, 12, 25])
+            if first_only and walks:
+                continue
             np.random.seed(nseed + k)
             try:
                 nodes = RW.random_walk(obj, s, time)
@@ -188,7 +212,42 @@ def rw_execute(spec):
             except Exception as ex:
                 walks.append({"s": s + 1, "time": time, "error": "%s: %s" % (type(ex).__name__, ex), "np_seed": nseed + k})
         log["walks"] = walks
-    case = {"st": b.state(obj), "walks": [w_ for w_ in walks if "nodes" in w_]}
+    return log
+
+
+def rw_execute(spec):
+    """build the hypergraph (labels 0..n-1) and call the four functions of dynamics/randwalk.py;
+    returns (case for TLC, log); floats stay on this side"""
+    import hypergraphx.dynamics.randwalk as RW
+    n, nseed = spec["n"], spec["np_seed"]
+    rng = random.Random(spec["case_seed"])
+    b = Binding("hg", LABEL_FAMILIES["zero"](n), rng)
+    if spec.get("prev_edges") is not None and spec.get("same_counts"):
+        obj = build(b, spec["prev_edges"], rng)
+        for first_only in (False, True):           # a clone of the generator replays the draws of the coming observation
+            r = random.Random()
+            r.setstate(rng.getstate())
+            rw_observe(RW, obj, n, spec, r, first_only)
+        er = random.Random(spec["case_seed"] + 7919)
+        keep, b.rng = b.rng, er
+        mutate(b, obj, spec["prev_edges"], spec["edges"], er)
+        settle_weights(b, obj, spec["edges"], er)
+        b.rng = keep
+    elif spec.get("prev_edges") is not None:
+        obj = build(b, spec["prev_edges"], rng)
+        with quiet():
+            np.random.seed(nseed)
+            for fn, args in ((RW.transition_matrix, ()), (RW.RW_stationary_state, ()),
+                             (RW.random_walk_density, (np.full(n, 1.0 / n), 2)), (RW.random_walk, (0, 3))):
+                try:
+                    fn(obj, *args)
+                except Exception:
+                    pass                           # judged on its own in the cases without a history
+        mutate(b, obj, spec["prev_edges"], spec["edges"], rng)
+    else:
+        obj = build(b, spec["edges"], rng)
+    log = rw_observe(RW, obj, n, spec, rng)
+    case = {"st": b.state(obj), "walks": [w_ for w_ in log["walks"] if "nodes" in w_]}
     return case, log
 
 
@@ -280,8 +339,9 @@ def rw_validate(res, specs, procs=8):
         hist = ""
         if sp.get("prev_edges") is not None:
             sig["history"] = "object edited after earlier calls"
-            hist = " [the same object had the hyperedges %s when the functions were first called on it]" % (
-                [[x - 1 for x in e] for e in sp["prev_edges"]],)
+            hist = " [the same object had the hyperedges %s when the functions were first called on it%s]" % (
+                [[x - 1 for x in e] for e in sp["prev_edges"]],
+                " with the same arguments; it was then edited in place, as many hyperedges removed as added" if sp.get("same_counts") else "")
         res.reject(sig,
                    "random walk on the connected hypergraph %s (nodes 0..%d)%s: %s" % (
                        e0, sp["n"] - 1, hist, "; ".join("%s [%s]" % (f, detail.get(f, "decided by TLC")) for f in sorted(prop))),
@@ -326,7 +386,16 @@ def randwalk_part(res, tier, seed):
             prev = rng.choice(conn4) if sp["n"] == 4 else random_connected(rng, sp["n"], 5)
             if sorted(tuple(e) for e in prev) != sorted(tuple(e) for e in sp["edges"]):
                 sp["prev_edges"] = [list(e) for e in prev]
+    # ... and a fifth of the others by an edit that keeps the numbers of nodes and hyperedges, after calls with the SAME arguments
+    hr = random.Random(seed * 7919 + 18)
+    for sp in specs:
+        if sp.get("prev_edges") is None and sp["n"] >= 3 and hr.random() < HISTORY_SHARE:
+            before = swapped(sp["edges"], sp["n"], hr, connected=True)
+            if before is not None:
+                sp["prev_edges"], sp["same_counts"] = [list(e) for e in before], True
     nrej, cases, logs, v = rw_validate(res, specs)
+    res.cov(objects_measured_again_after_in_place_edit=sum(1 for sp in specs if sp.get("same_counts")),
+            randwalk_objects_measured_again_after_in_place_edit=sum(1 for sp in specs if sp.get("same_counts")))
     res.cov(randwalk_hypergraphs=len(cases), randwalk_rejected=nrej,
             walks_validated=sum(len(c["walks"]) for c in cases),
             density_steps_validated=sum(max(0, len(d.get("list", [])) - 1) for l in logs for d in l["dens"]),
@@ -374,6 +443,8 @@ def ct_execute(spec):
         except Exception:
             pass
         mutate(b, obj, spec["prev_edges"], spec["edges"], rng)
+        if spec.get("same_counts"):
+            settle_weights(b, obj, spec["edges"], rng)
     else:
         obj = build(b, spec["edges"], rng, extra_nodes=range(1, n + 1))
     drain()
@@ -422,7 +493,7 @@ def ct_validate(res, specs, procs=8):
     for ti, (li, prop, failed) in first.items():
         d, ev = descr[ti], traces[ti][li]
         regime = "deterministic" if all(x in ("0", "1") for x in traces[ti][0]["r"].values()) else "stochastic"
-        show = {k: d[k] for k in ("n", "edges", "labels", "I0", "T", "rates", "np_seed", "prev_edges") if k in d}
+        show = {k: d[k] for k in ("n", "edges", "labels", "I0", "T", "rates", "np_seed", "prev_edges", "same_counts") if k in d}
         sig = {"part": "contagion", "clauses": sorted(prop), "regime": regime, "event": ev["kind"]}
         if d.get("prev_edges") is not None:
             sig["history"] = "object edited after an earlier run"
@@ -495,7 +566,16 @@ def contagion_part(res, tier, seed):
                     prev.add(tuple(sorted(rng.sample(range(1, n + 1), z))))
             if sorted(prev) != sorted(tuple(e) for e in sp["edges"]):
                 sp["prev_edges"] = [list(e) for e in sorted(prev)]
+    # ... and a fifth of the others on an object that had AS MANY hyperedges (k of them others) during an earlier run with the same arguments
+    hr = random.Random(seed * 7919 + 19)
+    for sp in specs:
+        if sp.get("prev_edges") is None and hr.random() < HISTORY_SHARE:
+            before = swapped(sp["edges"], sp["n"], hr)
+            if before is not None:
+                sp["prev_edges"], sp["same_counts"] = [list(e) for e in before], True
     traces, descr, v, first, only_drift = ct_validate(res, specs)
+    res.cov(objects_measured_again_after_in_place_edit=sum(1 for d in descr if d.get("same_counts")),
+            contagion_objects_measured_again_after_in_place_edit=sum(1 for d in descr if d.get("same_counts")))
     det = sum(1 for t_ in traces if all(x in ("0", "1") for x in t_[0]["r"].values()))
     hooked_runs = sum(1 for t_ in traces if len(t_) > 1)
     res.cov(contagion_runs=len(traces), contagion_deterministic_regime_runs=det, contagion_stochastic_runs=len(traces) - det,
@@ -521,6 +601,9 @@ ASSUMPTIONS = (
     "history of the OBJECT: every fourth random-walk hypergraph and every fifth contagion run is reached by editing (remove_edge / add_edge) an "
     "object on which the functions have already been called; the statement speaks about the hypergraph as it is, so the observation is judged "
     "like any other against the state read back through the public API",
+    "a further fifth of the remaining random-walk hypergraphs and contagion runs (same_counts) is reached by an edit that keeps the numbers of nodes and "
+    "hyperedges (k hyperedges replaced by k others of the same sizes, weighted objects also set_weight) after the functions were called on the object "
+    "with exactly the arguments of the judged observation (the first argument combination of each once more at the end), nothing called in between",
     "starting densities: one-node (float or integer-typed unit vector), uniform, random; contagion hyperedges have sizes 1..5")
 
 
